@@ -159,6 +159,20 @@ def _g1(repo, prog, out):
                 extra_ok = {'pos', 'pos_end', 'parsing_state', 'len', 'latex_walker'}
                 target = 'make_node(%s)' % nm
                 if repo.find_class(nm) is None:
+                    # the class is a parameter: every class the callers pass must accept the keywords
+                    classes = _class_values(repo, f.node, nm) if isinstance(c.args[0], ast.Name) else None
+                    for cn in sorted(classes or ()):
+                        sig = _ctor_accepts(repo, prog, cn)
+                        if sig is None or sig[1] is None:
+                            continue
+                        unk = [k.arg for k in kws if k.arg and k.arg not in sig[1] and k.arg not in extra_ok]
+                        if unk:
+                            out.append(Finding('G1', 'REFUTED', f.mod, c, f.key,
+                                               'make_node(%s, ...) is reached with %s = %s (passed by a caller), whose __init__ '
+                                               'does not accept the keyword(s) %s -> TypeError when reached (an unknown '
+                                               'environment or specials in a context without a fallback specification)'
+                                               % (nm, nm, cn, unk), '%s: %s as %s' % (f.qual, short(c, 60), cn)))
+                            break
                     continue
             elif nm is None or repo.find_class(nm) is None:
                 continue
@@ -189,6 +203,40 @@ def _g1(repo, prog, out):
                                    'call cannot bind to %s.__init__: %s -> TypeError/ValueError when '
                                    'reached' % (nm, '; '.join(problems)),
                                    '%s: %s' % (f.qual, short(c, 80))))
+
+
+def _class_values(repo, fnode, pname):
+    """class names passed for parameter `pname` of function `fnode` by the call sites in the package (a class name
+    directly, or a local bound once to a class name); None when some call site passes something else"""
+    if not isinstance(fnode, (ast.FunctionDef, ast.AsyncFunctionDef)):
+        return None
+    pos = [a.arg for a in fnode.args.args]
+    if pname not in pos:
+        return None
+    is_method = bool(pos) and pos[0] in ('self', 'cls')
+    i = pos.index(pname) - (1 if is_method else 0)
+    out = set()
+    for c in _all_calls(repo).get(fnode.name, []):
+        a = None
+        for k in c.keywords:
+            if k.arg == pname:
+                a = k.value
+        if a is None and 0 <= i < len(c.args):
+            a = c.args[i]
+        if a is None:
+            return None
+        if isinstance(a, ast.Name) and repo.find_class(a.id) is None:
+            g = enclosing_func(c)
+            defs = [s_.value for s_ in walk_fn(g) if isinstance(s_, ast.Assign) and any(
+                isinstance(t, ast.Name) and t.id == a.id for t in s_.targets)] if g is not None else []
+            if len(defs) != 1:
+                return None
+            a = defs[0]
+        nm = a.id if isinstance(a, ast.Name) else (a.attr if isinstance(a, ast.Attribute) else None)
+        if nm is None or repo.find_class(nm) is None:
+            return None
+        out.add(nm)
+    return out or None
 
 
 # --------------------------------------------------------------------------- G2
@@ -1709,3 +1757,74 @@ def _through_immediate(node, stmt):
                 return True
         child, par = par, getattr(par, '_parent', None)
     return False
+
+
+# --------------------------------------------------------------------------- G20
+
+
+def mismatched_field_source(fnode):
+    """`self.A = B` (B a plain name other than A) in a function that also binds a local or parameter named A which
+    is never read: the value meant for the field was prepared and then another, like-named one was stored (a
+    copy-and-paste slip).  Yields (assignment, field, source name)."""
+    if not isinstance(fnode, (ast.FunctionDef, ast.AsyncFunctionDef)):
+        return
+    a_ = fnode.args
+    bound = {x.arg for x in a_.args + a_.kwonlyargs}
+    reads = {}
+    nodes = list(walk_fn(fnode))
+    for n in nodes:
+        if isinstance(n, ast.Assign):
+            for t in n.targets:
+                for tt in (t.elts if isinstance(t, (ast.Tuple, ast.List)) else [t]):
+                    if isinstance(tt, ast.Name):
+                        bound.add(tt.id)
+        elif isinstance(n, ast.Name) and isinstance(n.ctx, ast.Load):
+            reads[n.id] = reads.get(n.id, 0) + 1
+    for n in nodes:
+        if isinstance(n, ast.Assign) and len(n.targets) == 1 and isinstance(n.targets[0], ast.Attribute) and \
+                isinstance(n.targets[0].value, ast.Name) and n.targets[0].value.id in ('self', 'cls') and \
+                isinstance(n.value, ast.Name):
+            fld, src = n.targets[0].attr, n.value.id
+            if fld != src and fld in bound and not reads.get(fld):
+                yield n, fld, src
+
+
+# --------------------------------------------------------------------------- G21
+
+_MUT_CALLS = {'append', 'extend', 'insert', 'pop', 'remove', 'clear', 'sort', 'reverse', 'update', 'setdefault', 'add',
+              'discard', 'popitem', 'appendleft'}
+
+
+def shared_class_containers(cls):
+    """a class attribute bound in the class body to a mutable display ({} / [] / set() / dict() / list()) that a method
+    changes in place through self (self.X[k] = v, self.X.append(..)) while no method ever re-binds self.X: the one
+    container belongs to the class, so every instance -- every converter, every parser -- shares what one of them
+    stored.  Yields (writing node, attribute, class-level assignment)."""
+    level = {}
+    for st in cls.body:
+        if isinstance(st, ast.Assign) and len(st.targets) == 1 and isinstance(st.targets[0], ast.Name):
+            v = st.value
+            if (isinstance(v, (ast.Dict, ast.List, ast.Set)) and not getattr(v, 'elts', getattr(v, 'keys', None))) or (
+                    isinstance(v, ast.Call) and isinstance(v.func, ast.Name) and v.func.id in (
+                        'dict', 'list', 'set', 'OrderedDict', 'defaultdict') and not v.args and not v.keywords):
+                level[st.targets[0].id] = st
+    if not level:
+        return
+    rebound = set()
+    writes = []
+    for meth in [m for m in cls.body if isinstance(m, (ast.FunctionDef, ast.AsyncFunctionDef))]:
+        for n in ast.walk(meth):
+            if isinstance(n, (ast.Assign, ast.AugAssign)):
+                for t in (n.targets if isinstance(n, ast.Assign) else [n.target]):
+                    if isinstance(t, ast.Attribute) and isinstance(t.value, ast.Name) and t.value.id == 'self' and t.attr in level:
+                        rebound.add(t.attr)
+                    elif isinstance(t, ast.Subscript) and isinstance(t.value, ast.Attribute) and \
+                            isinstance(t.value.value, ast.Name) and t.value.value.id == 'self' and t.value.attr in level:
+                        writes.append((n, t.value.attr))
+            elif isinstance(n, ast.Call) and isinstance(n.func, ast.Attribute) and n.func.attr in _MUT_CALLS and \
+                    isinstance(n.func.value, ast.Attribute) and isinstance(n.func.value.value, ast.Name) and \
+                    n.func.value.value.id == 'self' and n.func.value.attr in level:
+                writes.append((n, n.func.value.attr))
+    for n, a in writes:
+        if a not in rebound:
+            yield n, a, level[a]
